@@ -26,6 +26,57 @@
 const char *clientcertname = "control/clientcert.pem";
 const char *clientkeyname = "control/clientcert.pem";
 
+#define TLSHOSTS_PREFIX "control/tlshosts/"
+#define TLSHOSTS_SUFFIX ".pem"
+#define TLSHOSTS_NAMELEN (strlen(TLSHOSTS_PREFIX) + DOMAINNAME_MAX + strlen(TLSHOSTS_SUFFIX) + 1)
+
+/**
+ * @brief get the name of the certificate file configured for the remote host
+ * @param servercert buffer of at least TLSHOSTS_NAMELEN bytes for the filename
+ * @return strlen(partner_fqdn)
+ *
+ * If the connection was done by IP address or no certificate is configured for
+ * the host the buffer will hold an empty string.
+ */
+static size_t
+tls_servercert_name(char *servercert)
+{
+	const char *fnprefix = TLSHOSTS_PREFIX;
+	const char *fnsuffix = TLSHOSTS_SUFFIX;
+	size_t fqlen = 0;
+
+	if (partner_fqdn == NULL) {
+		*servercert = '\0';
+	} else {
+		struct stat st;
+
+		fqlen = strlen(partner_fqdn);
+		assert(fqlen <= DOMAINNAME_MAX);
+		memcpy(servercert, fnprefix, strlen(fnprefix));
+		memcpy(servercert + strlen(fnprefix), partner_fqdn, fqlen);
+		/* copy including the trailing '\0' */
+		memcpy(servercert + strlen(fnprefix) + fqlen, fnsuffix, strlen(fnsuffix) + 1);
+		if (stat(servercert, &st))
+			*servercert = '\0';
+	}
+
+	return fqlen;
+}
+
+/**
+ * @brief check if a certificate is configured for the remote host
+ * @return if control/tlshosts/<fqdn>.pem exists, i.e. if the host must authenticate itself
+ */
+int
+tls_cert_pinned(void)
+{
+	char servercert[TLSHOSTS_NAMELEN];
+
+	(void) tls_servercert_name(servercert);
+
+	return (*servercert != '\0');
+}
+
 /**
  * @brief send STARTTLS and handle the connection setup
  * @param d the dane information received for that domain
@@ -43,25 +94,8 @@ tls_init(const struct daneinfo *tlsa_info, int tlsa_cnt)
 {
 	char **saciphers;
 	const char *ciphers;
-	size_t fqlen = 0;
-	const char *fnprefix = "control/tlshosts/";
-	const char *fnsuffix = ".pem";
-	char servercert[strlen(fnprefix) + DOMAINNAME_MAX + strlen(fnsuffix) + 1];
-
-	if (partner_fqdn == NULL) {
-		*servercert = '\0';
-	} else {
-		struct stat st;
-
-		fqlen = strlen(partner_fqdn);
-		assert(fqlen <= DOMAINNAME_MAX);
-		memcpy(servercert, fnprefix, strlen(fnprefix));
-		memcpy(servercert + strlen(fnprefix), partner_fqdn, fqlen);
-		/* copy including the trailing '\0' */
-		memcpy(servercert + strlen(fnprefix) + fqlen, fnsuffix, strlen(fnsuffix) + 1);
-		if (stat(servercert, &st))
-			*servercert = '\0';
-	}
+	char servercert[TLSHOSTS_NAMELEN];
+	const size_t fqlen = tls_servercert_name(servercert);
 
 	SSL_library_init();
 	SSL_CTX *ctx = SSL_CTX_new(TLS_client_method());
